@@ -147,12 +147,15 @@ Qed.
 Lemma header_no_newline : nochar 10 sccw_header = true.
 Proof. vm_compute. reflexivity. Qed.
 
+Lemma parse_exact_document : forall doc lines, parse_exact doc = Some lines -> parse_document doc = Some lines.
+Proof. intros doc lines H. unfold parse_document. rewrite H. reflexivity. Qed.
+
 Theorem doc_parses : forall (ls : list (Q * list (Z * Z) * (Z * Z))),
   (forall l, In l ls -> (0 <= fst (fst l))%Q /\ forallb byte_ok (snd (fst l)) = true /\ byte_ok (snd l) = true) ->
   parse_document (doc_text (map (fun l => line_text (fst (fst l)) (snd (fst l)) (snd l)) ls))
   = Some (map (fun l => (tc_frames (fst (fst l)), snd (fst l) ++ [snd l])) ls).
 Proof.
-  intros ls H. unfold parse_document, doc_text.
+  intros ls H. apply parse_exact_document. unfold parse_exact, doc_text.
   cbn [app]. rewrite split_ch_app_sep, (split_ch_nosep 10 sccw_header) by exact header_no_newline. cbn [app].
   rewrite tbl_header, SccWordsFacts.str_eqb_refl.
   change (10 :: flat_map (fun l => l ++ [10; 10]) (map (fun l => line_text (fst (fst l)) (snd (fst l)) (snd l)) ls))
